@@ -43,7 +43,7 @@ func TestC08(t *testing.T) {
 		"0-5 gaps; instruction pointer writes of every shape (constant, foldable constant, conditional with two constant "+
 		"targets of which one may be the next instruction, register-indirect, conditional with an indirect arm, jump to "+
 		"next only); targets drawn from block starts, arbitrary instruction starts, mid-instruction, gap, before, behind and "+
-		"end-of-code addresses; entry point likewise; plus the empty instruction list. Oracle: partition computed from the "+
+		"end-of-code addresses and addresses beyond 2^32 whose low half is an instruction start or the next instruction; entry point likewise; plus the empty instruction list. Oracle: partition computed from the "+
 		"generated description by the rule of the statement (cut after real jumps, at gaps, before constant targets and "+
 		"the entry; fail iff entry or a constant target is not an instruction start). non-trivial = >=2 distinct cut "+
 		"reasons in one code, or a failure caused by a jump target; distinct by program rendering")
